@@ -10,8 +10,9 @@
      internal/semver         ComparePluginVersion (C20_Semver.v)
    The plugin root is a finite map  plugin name -> flat list of files; a file is
    (name, permission bits, content id). What a file answers to get-plugin-metadata
-   when executed is a function of its content (table [tbl], an oracle input: the
-   stub plugins of the harness print what is written in them).
+   when executed is a function of its content (table [tbl]). The harness gives, per
+   content, what it PRINTS (raw table, [tbl_of]); whether that is valid metadata is
+   decided by the model of plugin.validate ([validate]).
    A case is a history: an initial root, a list of install / uninstall operations,
    and after every operation what was returned, the whole tree of the root, the
    result of List and the answer of Get(name).GetMetadata for every listed name.
